@@ -57,6 +57,44 @@ Theorem C17_websocket_paths :
 Proof. exact ws_reads_are_sent_messages. Qed.
 Print Assumptions C17_websocket_paths.
 
+(* ---- the websocket-out direction: hub -> local feed client through handleWs' writePump, which starts a
+   websocket message with one hub message and appends whatever is queued in the client's Send channel.
+   For every schedule (which offers find the client ready, when writePump runs) and EVERY channel capacity:
+   each websocket message is made of unmodified hub messages, and over all websocket messages the parts
+   appear in stream order - forward only, none twice (gaps = messages the hub dropped for a slow client) *)
+Theorem C17_wsout_frames_in_stream_order :
+  forall msg_at wcap evs,
+    let s := wrun msg_at wcap evs in
+    (exists hi, chain 0 (map fst (concat (wframes s))) hi /\ hi <= wnext s) /\
+    Forall (fun f => frame_bytes f = concat (map msg_at (map fst f))) (wframes s).
+Proof. exact wsout_frames_in_stream_order. Qed.
+Print Assumptions C17_wsout_frames_in_stream_order.
+
+(* a websocket message is a contiguous piece of the stream when no drop happened between its parts
+   (its parts are consecutive hub messages k, k+1, ...) - and only this is guaranteed for a buffered channel *)
+Theorem C17_wsout_consecutive_frame_is_slice :
+  forall msg_at wcap evs f k,
+    In f (wframes (wrun msg_at wcap evs)) -> map fst f = seq k (length f) ->
+    frame_bytes f = concat (map msg_at (seq k (length f))).
+Proof. exact wsout_consecutive_frame_is_slice. Qed.
+Print Assumptions C17_wsout_consecutive_frame_is_slice.
+
+(* the code as it is - Send is unbuffered - never has anything to append: every websocket message is
+   exactly one hub message, hence always a contiguous slice, whatever the client's pace *)
+Theorem C17_wsout_unbuffered_single_message :
+  forall msg_at evs, Forall (single msg_at) (wframes (wrun msg_at 0 evs)).
+Proof. intros msg_at evs. exact (wsout_unbuffered_single msg_at 0 evs eq_refl). Qed.
+Print Assumptions C17_wsout_unbuffered_single_message.
+
+(* with a channel of capacity 2 the same writePump glues messages 0, 1 and 3 into one websocket message
+   (message 2 was dropped while the queue was full): not a contiguous slice.  The schedule run on the
+   unbuffered code gives single messages. *)
+Theorem C17_wsout_buffered_refuted :
+  let s := wrun (fun k => [N.of_nat k]) 2 glue_events in
+  map (map fst) (wframes s) = [[0; 1; 3]] /\ map frame_bytes (wframes s) = [[0; 1; 3]%N].
+Proof. exact wsout_buffered_glues_across_drop. Qed.
+Print Assumptions C17_wsout_buffered_refuted.
+
 (* ---- the tree before repair F10: message 1 is read after flush 2 and shows frame 2's bytes
    (replayed on the real code by harness/cmd/c17: post AAA, pause, BBB; the queued message reads BBB) *)
 Theorem C17_content_stable_pinned_refuted :
